@@ -238,6 +238,10 @@ pub struct Finding {
     /// other properties whose generators must exclude the same defect (no replay is run for them)
     #[serde(default)]
     pub also: Vec<String>,
+    /// the replay only fails under some thread timings inside lance (which the harness does not control): it is attempted
+    /// several times, and the finding stays listed (and its exclusion on) even when no attempt reproduces it
+    #[serde(default)]
+    pub timing_dependent: bool,
 }
 
 pub fn load_findings(prop: &str) -> Vec<Finding> {
@@ -489,7 +493,20 @@ impl<P: Property> DynProp for Adapter<P> {
                     }
                 };
                 let mut obs = Obs::default();
-                let r = guarded(&**p, &input, &mut obs, &env);
+                let mut r = guarded(&**p, &input, &mut obs, &env);
+                if f.timing_dependent && f.status == "known" {
+                    let mut attempts = 1;
+                    while r.is_ok() && attempts < 8 {
+                        r = guarded(&**p, &input, &mut obs, &env);
+                        attempts += 1;
+                    }
+                    if r.is_ok() {
+                        known_lines.push(format!("KNOWN-FINDING: property={} {} [{}; timing dependent, not reproduced in {attempts} attempts of its replay]", id, f.what, f.id));
+                        active.insert(f.id.clone());
+                        replayed.push(json!({"file": f.replay, "finding": f.id, "result": format!("timing dependent: not reproduced in {attempts} attempts; stays listed")}));
+                        continue;
+                    }
+                }
                 match (f.status.as_str(), r) {
                     ("known", Err(fl)) if fl.kind == f.signature => {
                         known_lines.push(format!("KNOWN-FINDING: property={} {} [{}]", id, f.what, f.id));
